@@ -852,6 +852,10 @@ func Eq(a Object, b Object) (Object, error) {
 	if a.Type() != b.Type() {
 		return False, nil
 	}
+	// object.__eq__: objects that do not define the comparison compare by identity
+	if same, ok := sameObject(a, b); ok {
+		return NewBool(same == (False == False)), nil
+	}
 
 	return nil, ExceptionNewf(TypeError, "unsupported operand type(s) for ==: '%s' and '%s'", a.Type().Name, b.Type().Name)
 }
@@ -884,6 +888,10 @@ func Ne(a Object, b Object) (Object, error) {
 
 	if a.Type() != b.Type() {
 		return True, nil
+	}
+	// object.__ne__: objects that do not define the comparison compare by identity
+	if same, ok := sameObject(a, b); ok {
+		return NewBool(same == (True == False)), nil
 	}
 
 	return nil, ExceptionNewf(TypeError, "unsupported operand type(s) for !=: '%s' and '%s'", a.Type().Name, b.Type().Name)
